@@ -399,11 +399,11 @@ func execC20(env *run.Env, in *c20Input, dir string, timeout time.Duration) run.
 		// basedir with policies/current -> p1, status/router
 		base := filepath.Join(dir, "base")
 		files := map[string]string{
-			"home/.netspoc-approve":          "basedir = " + base + "\n",
-			"base/policies/p1/code/router":   "route inside 10.20.0.0 255.248.0.0 10.1.2.3\n",
-			"base/policies/p0/code/router":   "route inside 10.20.0.0 255.248.0.0 10.1.2.3\n",
+			"home/.netspoc-approve":             "basedir = " + base + "\n",
+			"base/policies/p1/code/router":      "route inside 10.20.0.0 255.248.0.0 10.1.2.3\n",
+			"base/policies/p0/code/router":      "route inside 10.20.0.0 255.248.0.0 10.1.2.3\n",
 			"base/policies/p1/code/router.info": run.InfoJSON("ASA", "router"),
-			"base/status/router":             in.Status,
+			"base/status/router":                in.Status,
 		}
 		run.WriteFiles(dir, files)
 		os.Symlink("p1", filepath.Join(base, "policies/current"))
@@ -735,7 +735,7 @@ func c20Reproducers() []*c20Input {
 	return []*c20Input{
 		{Model: "ASA", Prog: "drc", Family: "R", Origin: "repro:asa-truncated-acl",
 			Device: asaDev,
-			Files: map[string]string{"router": "access-list x extended permit tcp object-group\naccess-group x in interface inside\n"}},
+			Files:  map[string]string{"router": "access-list x extended permit tcp object-group\naccess-group x in interface inside\n"}},
 		{Model: "ASA", Prog: "drc", Family: "R", Origin: "repro:asa-append-no-permit",
 			Device: asaDev,
 			Files: map[string]string{
